@@ -540,6 +540,36 @@ func c19(e *Env) {
 			return
 		}
 		e.Res.Stats["probe.c19.chain_swapped_to."+curSniKind]++
+		if !c19Valid(curSniKind, false) && c.Choose("rotate-back", 2) == 1 {
+			// the unacceptable chain stays for a while - every reconnection attempt of every pool and of
+			// the control connection is a rejected handshake - and then the genuine chain is back:
+			// however many handshakes were rejected before, a valid server is connected to again and
+			// requests are served through it
+			wait := []time.Duration{20 * time.Second, 2 * time.Minute, 6 * time.Minute}[c.Choose("bad-chain-for", 3)]
+			w.RunUntil(func() bool { return false }, wait)
+			before := len(recs)
+			curSniKind = "valid"
+			detail += fmt.Sprintf(", valid again after %v (%d connections so far)", wait, before)
+			w.RunUntil(func() bool { return false }, time.Minute)
+			if w.Stopped() || !check() {
+				return
+			}
+			cl := w.ConnectClient(pi, primitive.ProtocolVersion4)
+			st := cl.Send("startup", "", message.NewStartup(), nil)
+			w.RunUntil(func() bool { return len(st.Replies) > 0 }, time.Minute)
+			tok := w.NewToken()
+			r := cl.Send("query", tok, world.QueryMsg("SELECT * FROM ks.t WHERE k = '"+tok+"'", primitive.ConsistencyLevelOne), nil)
+			w.RunUntil(func() bool { return len(r.Replies) > 0 }, time.Minute)
+			if w.Stopped() {
+				return
+			}
+			if len(w.Attempts[tok]) == 0 {
+				w.Violate("c19-traffic", "valid-server-not-used-after-rejections", fmt.Sprintf("%s: a minute after the genuine chain was back a request reached no node (reply: %v); %d TLS connections were made since", detail, replyMsg(r), len(recs)-before))
+				return
+			}
+			e.Res.Stats["probe.c19.rotated_back_after_rejections"]++
+			e.Res.Stats[fmt.Sprintf("probe.c19.rejected_handshakes_before_rotation_back.ge32=%v", before-nConns >= 32)]++
+		}
 	}
 	acc, rej := 0, 0
 	for _, r := range recs {
